@@ -28,7 +28,8 @@ fn main() {
         ("replay", "bank") => bank::replay(a(3)),
         ("drive", "bank") => bank::drive(a(3).parse().unwrap_or(10), a(4).parse().unwrap_or(50), a(5)),
         ("drive", "bech") => bech::drive(a(3).parse().unwrap_or(5), a(4).parse().unwrap_or(1), a(5)),
-        ("drive", "chain") => chain::drive(a(3).parse().unwrap_or(5), a(4).parse().unwrap_or(10), a(5)),
+        ("drive", "chain") => chain::drive(a(3).parse().unwrap_or(5), a(4).parse().unwrap_or(10), a(5), false),
+        ("drive", "chain-stake") => chain::drive(a(3).parse().unwrap_or(5), a(4).parse().unwrap_or(10), a(5), true),
         ("drive", "overlay") => overlay::drive(
             a(3).parse().unwrap_or(10),
             a(4).parse().unwrap_or(50),
